@@ -74,7 +74,8 @@ def ticket_generator(initial: int = 1) -> Generator[int, None, None]:
 async def cancel_task(task: Optional[asyncio.Task]):
     if task:
         task.cancel()
-        try:
-            await task
-        except asyncio.CancelledError:
-            pass
+        # ``asyncio.wait`` never raises the awaited task's own CancelledError:
+        # a CancelledError raised here is the cancellation of the caller and
+        # must propagate
+        if not task.done():
+            await asyncio.wait([task])
